@@ -288,6 +288,19 @@ class FxGraph:
             return B("Graph.erase_node", er)
         if name == "lint":
             return B("Graph.lint", lambda it, a, k: self.lint(it))
+        if name == "eliminate_dead_code":
+            # ASSUMED Graph.eliminate_dead_code: in reverse order, erase every node without users that
+            # is not a placeholder / output (the opaque targets of the model graphs count as pure)
+            def dce(it: Any, a: List[Any], k: Dict[str, Any]) -> Any:
+                changed = False
+                for n in reversed(list(self.nodes)):
+                    if n.op not in ("placeholder", "output") and not n.users_list():
+                        it.ctx.effects.append(("graph", self, "erase_node"))
+                        self.erase_node(it, n)
+                        changed = True
+                return changed
+
+            return B("Graph.eliminate_dead_code", dce)
         if name in self.attrs:
             return self.attrs[name]
         raise PyRaise("AttributeError", f"Graph.{name}")
